@@ -487,7 +487,7 @@ func (d *delivery) runTraffic(seed uint64, idx int, cfg TrafficCfg, logger *netx
 // C03: delivery exactly once, in order, uncorrupted.
 func C03(c *runner.Cfg) *report.Result {
 	res := report.New("C03", "")
-	res.Rule = "configurations = (connections, channels per connection, window, write queue, read/write buffers, compression, GOMAXPROCS) drawn from extreme and default values; per channel a seeded plan (who closes, how: SendAndClose(payload) / Send+Free or handler return / Send+SendAndClose(nil) / SendAndClose as first call; message sizes from {1,W/2-1,W/2,W/2+1,W-1,W,W+1,2W,3W+7} and random), both directions streaming concurrently with independent producer and consumer goroutines; every payload encodes (channel, direction, sequence, length, crc); online oracle at every Receive: exactly the next unreceived message of that channel and direction, and the non-closing side must have received everything when it observes the end; additionally a stalled-receiver scenario (the receiver's outbound direction is stalled by the proxy, kernel buffers and a 4 KiB write queue filled, sequence of 2.5 windows in flight; Receive is called with an already cancelled / already timed-out context and retried; then the stall ends and a live context is used): the received sequence must be exactly the sent one and must complete; non-trivial = configuration with >=2 channels whose both directions carried data; distinct = distinct configurations x plans"
+	res.Rule = "configurations = (connections, channels per connection, window, write queue, read/write buffers, compression, GOMAXPROCS) drawn from extreme and default values; per channel a seeded plan (who closes, how: SendAndClose(payload) / Send+Free or handler return / Send+SendAndClose(nil) / SendAndClose as first call; message sizes from {1,W/2-1,W/2,W/2+1,W-1,W,W+1,2W,3W+7} and random), both directions streaming concurrently with independent producer and consumer goroutines; every payload encodes (channel, direction, sequence, length, crc); online oracle at every Receive: exactly the next unreceived message of that channel and direction, and the non-closing side must have received everything when it observes the end; additionally a stalled-receiver scenario (the receiver's outbound direction is stalled by the proxy, kernel buffers and a 4 KiB write queue filled, sequence of 2.5 windows in flight; Receive is called with an already cancelled / already timed-out context and retried; then the stall ends and a live context is used): the received sequence must be exactly the sent one and must complete; and a lagging-receiver scenario (nothing is read until the sender has pushed all the window admits, up to the 16 MiB default window in messages of 1-8 MiB, then closes with a payload): everything arrives in order, then the end; non-trivial = configuration with >=2 channels whose both directions carried data; distinct = distinct configurations x plans"
 	logger := netx.NewRecLogger()
 	hooks := netx.Install(c.Seed)
 	hooks.Extra = traceHook
@@ -569,6 +569,7 @@ func C03(c *runner.Cfg) *report.Result {
 	slot.Done()
 	if c.Extra == "" && !c.Abort.Load() {
 		stalledReceive(c, res, logger)
+		laggingReceiver(c, res, logger)
 	}
 	res.Count("messages_sent_up", d.sent[0].Load())
 	res.Count("messages_sent_down", d.sent[1].Load())
